@@ -676,7 +676,7 @@ def translate_simple(fn, lean_name, params, ret_type, **kw):
     if t != ret_type:
         raise Untranslatable(f'{fn.name}: result type {t}, declared {ret_type}')
     sig = ' '.join(f'({n} : {t})' for n, t in params)
-    return f'def {lean_name} {sig} : {ret_type} :=\n  {v}\n'
+    return f'@[reducible] def {lean_name} {sig} : {ret_type} :=\n  {v}\n'
 
 
 def translate_function(fn, lean_name, params, record, fields, struct, consts=None, helpers=None, externs=None):
